@@ -5,8 +5,8 @@ From Nop Require Import Spec Sim EncSpec ScalarRT DecSpec.
 Local Open Scope N_scope.
 
 (* decoding over any reader related to ListReader *)
-Lemma dec_sim t {R1 R2} (rho : R1 -> R2 -> Prop) o1 o2 r1 r2 :
-  rops_rel rho o1 o2 -> rho r1 r2 -> rel_res rho (dec t o1 r1) (dec t o2 r2).
+Lemma dec_sim bd t {R1 R2} (rho : R1 -> R2 -> Prop) o1 o2 r1 r2 :
+  rops_rel bd rho o1 o2 -> rho r1 r2 -> rel_res bd rho (dec t o1 r1) (dec t o2 r2).
 Proof.
   intros Hops Hr. unfold dec. apply dec_with_sim; [exact Hops| |exact Hr].
   intros p s1 s2 Hs. apply decp_sim; assumption.
@@ -14,11 +14,11 @@ Qed.
 
 Theorem dec_any_source t v {R} (rho : R -> LR -> Prop) (o : rops R) r rest :
   wf t = true -> has_type t v = true ->
-  rops_rel rho o lr_ops -> rho r (spec_enc t v ++ rest) ->
+  rops_rel true rho o lr_ops -> rho r (spec_enc t v ++ rest) ->
   exists r', dec t o r = Ok v r' /\ rho r' rest.
 Proof.
   intros Hwf Hv Hops Hr.
-  pose proof (dec_sim t rho o lr_ops r _ Hops Hr) as H.
+  pose proof (dec_sim true t rho o lr_ops r _ Hops Hr) as H.
   rewrite (dec_from_payload t v rest Hv (decp_payload t v Hwf Hv rest)) in H.
   unfold rel_res in H. destruct (dec t o r) as [v' r'|e r']; [|contradiction].
   destruct H as [-> H]. exists r'. auto.
@@ -26,21 +26,21 @@ Qed.
 
 (* composition of reader relations *)
 Lemma rops_rel_trans {R1 R2 R3} (rho12 : R1 -> R2 -> Prop) (rho23 : R2 -> R3 -> Prop) o1 o2 o3 :
-  rops_rel rho12 o1 o2 -> rops_rel rho23 o2 o3 ->
-  rops_rel (fun a c => exists b, rho12 a b /\ rho23 b c) o1 o3.
+  rops_rel true rho12 o1 o2 -> rops_rel true rho23 o2 o3 ->
+  rops_rel true (fun a c => exists b, rho12 a b /\ rho23 b c) o1 o3.
 Proof.
   intros H12 H23.
   assert (T : forall A (m1 : res A R1) (m2 : res A R2) (m3 : res A R3),
-             rel_res rho12 m1 m2 -> rel_res rho23 m2 m3 ->
-             rel_res (fun a c => exists b, rho12 a b /\ rho23 b c) m1 m3).
+             rel_res true rho12 m1 m2 -> rel_res true rho23 m2 m3 ->
+             rel_res true (fun a c => exists b, rho12 a b /\ rho23 b c) m1 m3).
   { intros A m1 m2 m3 Ha Hb. destruct m1, m2, m3; cbn in *; try contradiction;
       destruct Ha as [-> Ha], Hb as [-> Hb]; split; eauto. }
   split.
-  - intros n r1 r3 (r2 & Ha & Hb). eapply T; [apply (rr_ensure _ _ _ H12)|apply (rr_ensure _ _ _ H23)]; eassumption.
-  - intros r1 r3 (r2 & Ha & Hb). eapply T; [apply (rr_read1 _ _ _ H12)|apply (rr_read1 _ _ _ H23)]; eassumption.
-  - intros n r1 r3 (r2 & Ha & Hb). eapply T; [apply (rr_readn _ _ _ H12)|apply (rr_readn _ _ _ H23)]; eassumption.
-  - intros n r1 r3 (r2 & Ha & Hb). eapply T; [apply (rr_skip _ _ _ H12)|apply (rr_skip _ _ _ H23)]; eassumption.
-  - intros h r1 r3 (r2 & Ha & Hb). eapply T; [apply (rr_gethandle _ _ _ H12)|apply (rr_gethandle _ _ _ H23)]; eassumption.
+  - intros n r1 r3 (r2 & Ha & Hb). eapply T; [apply (rr_ensure _ _ _ _ H12)|apply (rr_ensure _ _ _ _ H23)]; eassumption.
+  - intros r1 r3 (r2 & Ha & Hb). eapply T; [apply (rr_read1 _ _ _ _ H12)|apply (rr_read1 _ _ _ _ H23)]; eassumption.
+  - intros n r1 r3 (r2 & Ha & Hb). eapply T; [apply (rr_readn _ _ _ _ H12)|apply (rr_readn _ _ _ _ H23)]; eassumption.
+  - intros n r1 r3 (r2 & Ha & Hb). eapply T; [apply (rr_skip _ _ _ _ H12)|apply (rr_skip _ _ _ _ H23)]; eassumption.
+  - intros h r1 r3 (r2 & Ha & Hb). eapply T; [apply (rr_gethandle _ _ _ _ H12)|apply (rr_gethandle _ _ _ _ H23)]; eassumption.
 Qed.
 
 (* the buffer reader model (BufferReader after its repair, PedanticBufferReader)
@@ -48,7 +48,7 @@ Qed.
 Definition bufr_rel (r : bufr) (l : LR) : Prop :=
   br_idx r <= br_size r /\ br_size r < two64 /\ l = skipn (tn (br_idx r)) (br_buf r).
 
-Lemma bufr_refines : rops_rel bufr_rel bufr_ops lr_ops.
+Lemma bufr_refines : rops_rel true bufr_rel bufr_ops lr_ops.
 Proof.
   assert (Adv : forall r n, br_idx r <= br_size r -> br_size r < two64 -> n <= br_size r - br_idx r ->
             bufr_rel (br_adv r n) (skipn (tn n) (skipn (tn (br_idx r)) (br_buf r)))).
@@ -104,4 +104,61 @@ Proof.
   induction 1 as [|[t v] tvs [Hw Hv] _ IH]; cbn [map dec_all enc_all fst snd] in *; [reflexivity|].
   rewrite <- app_assoc, (dec_from_payload t v _ Hv (decp_payload t v Hw Hv _)). cbn [bind].
   rewrite IH. reflexivity.
+Qed.
+
+(* ---- a successful read does not depend on what follows ----------------------- *)
+Definition ext_rel (x : bytes) (l1 l2 : LR) : Prop := l2 = l1 ++ x.
+
+Lemma take_n_ext n (l x a r : bytes) : take_n n l = Some (a, r) -> take_n n (l ++ x) = Some (a, r ++ x).
+Proof.
+  unfold take_n. destruct (N.leb_spec n (N.of_nat (length l))) as [L|L]; [|discriminate].
+  intros E. injection E as <- <-. rewrite app_length, Nat2N.inj_add.
+  rewrite (proj2 (N.leb_le _ _)) by lia.
+  rewrite firstn_app, skipn_app.
+  replace (tn n - length l)%nat with 0%nat by lia. cbn [firstn skipn]. rewrite app_nil_r. reflexivity.
+Qed.
+
+Lemma lr_ext_rel x : rops_rel false (ext_rel x) lr_ops lr_ops.
+Proof.
+  split; cbn [lr_ops r_ensure r_read1 r_readn r_skip r_gethandle]; unfold ext_rel.
+  - intros n l1 l2 ->. destruct (N.leb_spec n (N.of_nat (length l1))) as [L|L]; [|exact I].
+    rewrite app_length, Nat2N.inj_add. rewrite (proj2 (N.leb_le _ _)) by lia. cbn. auto.
+  - intros l1 l2 ->. destruct l1 as [|b r]; [exact I|]. cbn. auto.
+  - intros n l1 l2 ->. destruct (take_n n l1) as [[a r]|] eqn:E; [|exact I].
+    rewrite (take_n_ext _ _ x _ _ E). cbn. auto.
+  - intros n l1 l2 ->. destruct (take_n n l1) as [[a r]|] eqn:E; [|exact I].
+    rewrite (take_n_ext _ _ x _ _ E). cbn. auto.
+  - intros h l1 l2 ->. cbn. auto.
+Qed.
+
+Theorem dec_extend t bs v rest x :
+  dec t lr_ops bs = Ok v rest -> dec t lr_ops (bs ++ x) = Ok v (rest ++ x).
+Proof.
+  intros H. pose proof (dec_sim false t (ext_rel x) lr_ops lr_ops bs (bs ++ x) (lr_ext_rel x) eq_refl) as S.
+  rewrite H in S. unfold rel_res in S.
+  destruct (dec t lr_ops (bs ++ x)) as [v' r'|e r']; [|contradiction].
+  destruct S as [-> ->]. reflexivity.
+Qed.
+
+(* a strict prefix of a complete encoding is never accepted *)
+Theorem truncation_rejected t e v k :
+  dec t lr_ops e = Ok v [] -> (k < length e)%nat ->
+  forall v' r, dec t lr_ops (firstn k e) <> Ok v' r.
+Proof.
+  intros He Hk v' r H.
+  pose proof (dec_extend t _ _ _ (skipn k e) H) as H2. rewrite firstn_skipn, He in H2.
+  injection H2 as _ E. symmetry in E. apply app_eq_nil in E. destruct E as [_ E].
+  apply (f_equal (@length N)) in E. rewrite skipn_length in E. cbn in E. lia.
+Qed.
+
+(* ... on every reader that simulates ListReader *)
+Theorem truncation_rejected_any_source t e v k {R} (rho : R -> LR -> Prop) (o : rops R) r :
+  rops_rel true rho o lr_ops -> rho r (firstn k e) ->
+  dec t lr_ops e = Ok v [] -> (k < length e)%nat ->
+  exists err r', dec t o r = Err err r'.
+Proof.
+  intros Hops Hr He Hk. pose proof (dec_sim true t rho o lr_ops r _ Hops Hr) as S.
+  unfold rel_res in S. destruct (dec t o r) as [v' r'|err r']; [|eauto].
+  destruct (dec t lr_ops (firstn k e)) as [v2 r2|e2 r2] eqn:E; [|contradiction].
+  exfalso. exact (truncation_rejected t e v k He Hk v2 r2 E).
 Qed.
